@@ -2,10 +2,15 @@ import os, sys
 sys.path.insert(0, os.path.dirname(os.path.abspath(__file__)))
 from engine_checks import *  # noqa
 import eng_decide
+import c04_objects
 
 
 def run(res, tier, seed, proof_broken, replay):
+    if replay and c04_objects.replay_file(res, replay if os.path.isabs(replay) else os.path.join(VERIF, replay)):
+        return
     run_c04(res, tier, seed, proof_broken, replay)
+    # the object-identity family: different OBJECTS with related PATHS (Model/Spec/ObjTree.lean, driver layer monc04)
+    c04_objects.attach(res, tier, seed, proof_broken)
     # the engine's own decisions: Lean decision tables (Props/Engine.lean) tied to the real methods by differential execution
     before = len(res.violations)
     broken = list(proof_broken)
